@@ -4959,7 +4959,14 @@ _trait_setstate(trait_object *trait, PyObject *args)
     Py_INCREF(trait->delegate_name);
     Py_INCREF(trait->delegate_prefix);
     Py_INCREF(trait->handler);
-    Py_INCREF(trait->obj_dict);
+    /* __getstate__ writes None for a trait that has no __dict__ yet; the
+       'obj_dict' slot must hold a dictionary or NULL, never None. */
+    if (trait->obj_dict == Py_None) {
+        trait->obj_dict = NULL;
+    }
+    else {
+        Py_INCREF(trait->obj_dict);
+    }
 
     Py_INCREF(Py_None);
     return Py_None;
